@@ -102,6 +102,7 @@ def main(tier: str, seed: int, replay: str | None = None) -> int:
     rep = C.Report("C18", tier, seed)
     rep.proof_stage()
     rep.proof_stage("C18_pure")     # schedule independence where it holds: read-only subtype constraints
+    rep.proof_stage("C18_elim_final_k")  # ... with the followed references of all constraints equal too (eqk)
     rep.proof_stage("C18_elim_final")  # WHOLE PROGRAMS of the base-alternative class: any two schedules give the same failing command, or equal values and eqr-related stores
     rep.proof_stage("C18_elim_whole")  # every reachable store of a progE program satisfies the round invariant; lockstep congruence; whole-program statement conditional on RelCmd
     rep.proof_stage("C18_elim_prog")   # the invariant GI behind RoundPre is preserved by every engine operation except TypeSchema.instance (whole-program lifting partial)
